@@ -313,7 +313,7 @@ func rulesC20(c *Ctx) {
 	if fn := c.MustFunc("C20.c", rb+".Resize"); fn != nil {
 		okOff := false
 		for _, w := range p.FieldWrites(p.Field(rb + ".resizeOffset")) {
-			if _, isLow := p.fieldSel(w.Arg, rb+".lowestId"); isLow && w.Fn == fn {
+			if _, isLow := p.fieldSel(w.Arg, rb+".lowestId"); isLow && p.inFn(w.Fn, fn) {
 				okOff = true
 				// and lowestId has been updated before
 				st := p.StateAt(fn, w.Node)
@@ -658,7 +658,7 @@ func (p *Prog) assignsFieldFrom(fn *Func, field string, e ast.Expr) bool {
 		return false
 	}
 	for _, w := range p.FieldWrites(f) {
-		if w.Fn == fn && w.Arg != nil && p.Src(w.Arg) == p.Src(e) {
+		if p.inFn(w.Fn, fn) && w.Arg != nil && p.Src(w.Arg) == p.Src(e) {
 			return true
 		}
 	}
